@@ -201,3 +201,28 @@ def kf_multidict_update(f):
     buggy = _multidict_620_update(old, new)
     dup_old = len({k for k, _ in old if k in keys}) >= 2 and any(sum(1 for kk, _ in old if kk == k) > 1 for k in keys)
     return dup_old and got == buggy and [p for p in got if p[0] not in keys] == correct
+
+
+@recogniser("KF-CHILD-ROOT-LAW", "C13")
+def kf_child_root_law(f):
+    """same root cause as KF-CHILD-ROOT, seen through the joinpath laws of C13: when '..' climbs above the root and an empty
+    segment follows, one spelling loses the empty segment and the alternative spelling does not"""
+    if not f["clause"].startswith("joinpath(a, b) !="):
+        return False
+    obs = f["observed"]
+    base = obs.get("base", "")
+    if "://" not in base and not base.startswith("//"):
+        return False
+    from urllib.parse import urlsplit
+    bp = urlsplit(base).path
+    bp = bp[:-1] if bp.endswith("/") else bp
+    merged = (bp or "") + "/" + obs["a"] + "/" + obs["b"]
+    if not _climbs_above_root_then_empty(merged):
+        return False
+    results = [urlsplit(obs[k]).path or "/" for k in ("j1", "j2", "j3") if k in obs]
+    allowed = {ref.remove_dot_segments(merged) or "/", _child_model_popping_root(merged) or "/"}
+    # stepwise application normalises after each step: also allow the models applied stepwise
+    step1 = _child_model_popping_root((bp or "") + "/" + obs["a"]) or "/"
+    s1 = step1[:-1] if step1.endswith("/") else step1
+    allowed |= {_child_model_popping_root(s1 + "/" + obs["b"]) or "/", ref.remove_dot_segments(s1 + "/" + obs["b"]) or "/"}
+    return all(r in allowed for r in results)
